@@ -234,6 +234,21 @@ func (e *Engine) selectOp(st *State, x *ssa.Select) Val {
 	return out
 }
 
+// doGo: the spawned call is checked at the spawn point (callee precondition, or the callee's body when it has no
+// contract) on a copy of the state; its effects on the spawning function's state are not modelled.
 func (e *Engine) doGo(st *State, x *ssa.Go) {
-	e.Assumed["go statement: the spawned goroutine's effects are not modelled (sequential semantics)"] = true
+	e.Assumed["go statement: the spawned call is checked at the spawn point (precondition / body), its effects on the spawner are not modelled (no interleavings)"] = true
+	c := x.Common()
+	var args []Val
+	for _, a := range c.Args {
+		args = append(args, e.get(st, a))
+	}
+	var fv Val
+	if _, isB := c.Value.(*ssa.Builtin); !isB {
+		fv = e.get(st, c.Value)
+	}
+	st2 := st.clone()
+	e.branch(func() {
+		e.callValue(st2, c, fv, args, x.Pos(), func(*State, Val) {})
+	})
 }
